@@ -28,7 +28,9 @@ FPU == {
   [kind |-> "C", old |-> NULL, new |-> "b", ren |-> FALSE, hunks |-> <<>>, to |-> <<>>, from |-> <<>>, nmode |-> "644"],      \* git creation of an empty file (no hunks; its header carries the mode)
   [kind |-> "D", old |-> "b", new |-> NULL, ren |-> FALSE, hunks |-> <<>>, to |-> <<>>, from |-> <<>>, nmode |-> NoMode],
   \* a file patch the tool refuses with an error (its new name leaves the tree); it belongs to the worker of its old name
-  [kind |-> "E", old |-> "b", new |-> "b", ren |-> FALSE, hunks |-> <<>>, to |-> <<>>, from |-> <<>>, nmode |-> NoMode] }   \* git deletion of an empty file  \* re-creation under an old name
+  [kind |-> "E", old |-> "b", new |-> "b", ren |-> FALSE, hunks |-> <<>>, to |-> <<>>, from |-> <<>>, nmode |-> NoMode],
+  \* ... and one whose error comes in the middle of the step (a rename whose new name cannot be loaded)
+  [kind |-> "E", old |-> "a", new |-> "a", ren |-> TRUE, hunks |-> <<>>, to |-> <<>>, from |-> <<>>, nmode |-> NoMode] }   \* git deletion of an empty file  \* re-creation under an old name
 
 F(cells, mode) == [ex |-> TRUE, cells |-> cells, mode |-> mode]
 TreeOf(a, b, c, e) == [p \in Paths |-> CASE p = "a" -> a [] p = "b" -> b [] p = "d/c" -> c [] p = "d/e" -> e]
